@@ -2,6 +2,7 @@ package props
 
 import (
 	"fmt"
+	"os"
 	"strings"
 	"time"
 
@@ -322,6 +323,12 @@ func (p C06) Run(c *sim.Ctx, t *sim.Tape) sim.RunResult {
 
 	m := &seqModel{cfg: cfg, n: len(cfg.Progs), memo: map[string]*seqEval{}}
 
+	if os.Getenv("VERIF_DEBUG_LIN") != "" {
+		for _, h := range hist {
+			fmt.Printf("HIST client=%d in=%v call=%d ret=%d out=%q\n", h.Client, h.In, h.Call, h.Ret, h.Out)
+		}
+	}
+
 	// porcupine states are sequence keys; two keys are equal when they lead to the same observable state.
 	lr := checkLinKeys(hist, m)
 	c.Count("sequential_replays", int64(m.evals))
@@ -356,7 +363,9 @@ func (p C06) Run(c *sim.Ctx, t *sim.Tape) sim.RunResult {
 		// The listed races explain histories whose calls each return something a sequential order could return,
 		// in a combination none yields. A call that returns what NO order yields is a different thing and is
 		// never covered by them.
-		if k := impossibleOutcome(m, cfg, r.Hist); k != "" {
+		// (not when a directory on the path is removed or moved meanwhile: resolving a path of several components
+		// is several lookups in any file system, and what they meet then belongs to the recorded ancestor races.)
+		if k := impossibleOutcome(m, cfg, r.Hist); k != "" && !ancRace(cfg) {
 			sig = cfg.FS + " query answers with an object type (or link target) that the path has in no sequential order: " + k
 		}
 
@@ -501,7 +510,7 @@ func impossibleOutcome(m *seqModel, cfg *concCfg, hist []sim.HistOp) string {
 		id := fmt.Sprintf("%d.%d", ci.Client, ci.Index)
 		cl := typeClass(h.Out)
 
-		if cfg.Symlinks && !strings.HasPrefix(cl, "ok") {
+		if cfg.Symlinks && cl == "error" {
 			// following a symbolic link is two lookups (the link, then its target), which no file system makes
 			// atomic: an error in between is the walk's, not a wrong object.
 			continue
@@ -529,11 +538,8 @@ func typeClass(out string) string {
 		return "ok:" + f[2]
 	}
 
-	if len(f) > 0 {
-		return f[0]
-	}
-
-	return out
+	// which error is not a matter of object type (a Windows-typed instance tells a missing file from a missing directory).
+	return "error"
 }
 
 type orderInfo struct {
